@@ -21,6 +21,9 @@ PlanRun run_plan_single(const TaskPlan &plan, const ExecCfg &cfg, bool log_event
 struct ConcurrentResult { std::vector<PlanRun> runs; SchedResult sched; };
 ConcurrentResult run_plans_concurrent(const std::vector<TaskPlan> &plans, const ExecCfg &cfg, const SchedConfig &sc);
 
+// several plans one after the other in ONE task context (same thread, same allocator history): history independence
+std::vector<PlanRun> run_plans_sequential(const std::vector<TaskPlan> &plans, const ExecCfg &cfg, int garbage);
+
 struct SlotView { bool haveA, have_pattern, haveLU, lu_valid; int m, n, last_cls; long lu_lwork; char equed; std::vector<int> perm_r, perm_c; };
 struct Session {
     virtual ~Session() {}
